@@ -220,7 +220,7 @@ func (e *Env) EndBlock() []byte {
 		// Owned by the properties about parameters taking effect (C16) and the fee parameters (C06);
 		// elsewhere it is counted and shows through the property's own rules.
 		e.C.Count("params_reported_vs_stored_mismatches", 1)
-		if e.C.Prop == "C16" || e.C.Prop == "C06" {
+		if e.C.Prop == "C16" || e.C.Prop == "C06" || e.C.Prop == "C14" { // C14: a rolled-back execution left something behind
 			for _, mm := range q.ParamsMismatch {
 				e.C.Violate("reported-params-differ-from-store", strings.SplitN(mm, ":", 2)[0], "at height %d the module answers with parameters that are not the stored ones - %s | trace: %s", q.Height, oneLine(mm), strings.Join(e.TraceTail(4), " ; "))
 			}
